@@ -513,6 +513,4 @@ def run(ctx):
 
 
 def replay(ctx, path):
-    r = json.load(open(path))
-    print(json.dumps(r, indent=1))
-    return 0
+    return vlib.generic_replay(ctx, path)
